@@ -2,7 +2,7 @@
    Statements only; K is an arbitrary field (FLaws K), so every statement holds in particular
    for all real field values (instance ROps) and is executed at Qc by the correspondence. *)
 From Coq Require Import Qcanon Reals.
-From DF Require Import Prelude FieldK NDArray Diff C04_proofs C04_linear C04_ring C04_uniform C04_witness C04_shift Check_C04 C04_sound.
+From DF Require Import Prelude FieldK NDArray Diff C04_proofs C04_linear C04_ring C04_uniform C04_witness C04_shift Check_C04 CheckSound C04_sound.
 
 (* --- runs: each maximal run of valid cells is differentiated on its own --- *)
 Theorem C04_whole_valid_line_is_one_run : forall (K : FOps) order h (r : list K),
@@ -250,3 +250,7 @@ Example C04_accepted_invalid_zero_instance :
   check_C04 (CDiff [4]%nat 1 0 1 1 false true [0;1;4;9]%Q [true;false;true;true] [0;0;5;5]%Q) = true.
 Proof. exact accepted_invalid_zero_instance. Qed.
 Print Assumptions C04_accepted_invalid_zero_instance.
+Theorem C04_shard_verdict : forall cases k,
+  failing k (map check_C04 cases) = [] -> forall c, In c cases -> check_C04 c = true.
+Proof. exact (CheckSound.failing_nil_all check_C04). Qed.
+Print Assumptions C04_shard_verdict.
